@@ -3,8 +3,10 @@
 package c18
 
 import (
+	"errors"
 	"fmt"
 	"reflect"
+	"sort"
 	"strings"
 	"sync"
 	"sync/atomic"
@@ -14,7 +16,8 @@ import (
 	"verif/harness/hx"
 )
 
-// op is one call on the map; kind is "los" (LoadOrStore, compute returns v), "load" or "store".
+// op is one call on the map; kind is "los" (LoadOrStore, compute returns the value named v),
+// "load" or "store" (of the value named v).
 type op struct {
 	kind string
 	k, v int
@@ -24,7 +27,89 @@ func (o op) String() string {
 	if o.kind == "load" {
 		return fmt.Sprintf("(load %d)", o.k)
 	}
-	return fmt.Sprintf("(%s %d %d)", o.kind, o.k, o.v)
+	return fmt.Sprintf("(%s %d %s)", o.kind, o.k, valName(o.v))
+}
+
+// ---------------------------------------------------------------- values
+//
+// The map must treat every value alike, whatever its Go type. A value is named by an id
+// `1000*tag + n` (n < 1000); the tag says what kind of Go value stands behind the name, and the
+// name is all the Lean model ever sees (there values are opaque). In op lines the id is written
+// as the tag's letter followed by n: `11` (an int), `e11`, `f11`, `n11`, `p11`, `s11`.
+const (
+	tagInt     = iota // the int n
+	tagErr            // an error made by errors.New (a pointer; the d2 client returns such values from its compute functions)
+	tagFailure        // an error whose dynamic type is a struct, not a pointer
+	tagNil            // the nil interface
+	tagPtr            // a pointer to a struct
+	tagStruct         // a struct
+	nTags
+)
+
+const tagLetters = "\x00efnps"
+
+func mkVal(tag, n int) int { return 1000*tag + n }
+func tagOf(id int) int    { return id / 1000 }
+
+func valName(id int) string {
+	if tagOf(id) == tagInt {
+		return fmt.Sprint(id)
+	}
+	return fmt.Sprintf("%c%d", tagLetters[tagOf(id)], id%1000)
+}
+
+// parseVal is the inverse of valName; ok is false for anything else.
+func parseVal(a string) (int, bool) {
+	tag := tagInt
+	if a != "" {
+		if i := strings.IndexByte(tagLetters[1:], a[0]); i >= 0 {
+			tag, a = i+1, a[1:]
+		}
+	}
+	n := 0
+	if a == "" || len(a) > 3 {
+		return 0, false
+	}
+	for _, ch := range a {
+		if ch < '0' || ch > '9' {
+			return 0, false
+		}
+		n = 10*n + int(ch-'0')
+	}
+	return mkVal(tag, n), true
+}
+
+// canonical rendering of "the value named id" as a call result / cell content: every nil
+// interface is the same value, so all of them render alike (and like the content of a
+// placeholder that was read before it was written)
+func renderID(id int) string {
+	if tagOf(id) == tagNil {
+		return "nil"
+	}
+	return "val:" + valName(id)
+}
+
+type failure struct{ id int }
+
+func (failure) Error() string { return "computation failed" }
+
+type box struct{ id int }
+
+// goValue makes the Go value a name stands for; made once per run and name (pointers have an identity).
+func goValue(id int) interface{} {
+	switch tagOf(id) {
+	case tagErr:
+		return errors.New("computation failed")
+	case tagFailure:
+		return failure{id}
+	case tagNil:
+		return nil
+	case tagPtr:
+		return &box{id}
+	case tagStruct:
+		return box{id}
+	}
+	return id
 }
 
 func progsString(progs [][]op) string {
@@ -127,6 +212,8 @@ type ctl struct {
 	dead      chan struct{} // closed by the watchdog
 	hung      bool
 	computes  map[int]*int32
+	vals      map[int]interface{} // the Go value behind every value name of the configuration
+	ids       []int               // the names, sorted
 	doneKey   map[int]bool // wg.Done() has been executed by the placeholder owner of this key
 	clock     int
 	earlyWake []string // D: a Wait returned although Done had not been called
@@ -142,15 +229,16 @@ const watchdog = 10 * time.Second
 func isWait(p string) bool  { return p == "los.Wait" || p == "load.Wait" }
 func isFirst(p string) bool { return p == "los.LoadOrStore" || p == "load.Load" }
 
-func renderVal(v interface{}) string {
+// renderVal names what the map handed out: one of the run's own values (found by comparing with
+// each of them: ints and structs by content, pointers by identity), the in-flight placeholder,
+// or something else.
+func (c *ctl) renderVal(v interface{}) string {
 	if v == nil {
 		return "nil"
 	}
-	if i, ok := v.(int); ok {
-		return fmt.Sprintf("val:%d", i)
-	}
 	// anything of a type the lazymap package itself declares is its in-flight placeholder
-	// (recognised by where the type lives, not by what it is called)
+	// (recognised by where the type lives, not by what it is called); none of the run's values
+	// has such a type
 	t := reflect.TypeOf(v)
 	for t.Kind() == reflect.Ptr {
 		t = t.Elem()
@@ -158,20 +246,32 @@ func renderVal(v interface{}) string {
 	if strings.HasSuffix(t.PkgPath(), "/lazymap") {
 		return "placeholder"
 	}
+	if t.Comparable() {
+		for _, id := range c.ids {
+			if c.vals[id] == v {
+				return renderID(id)
+			}
+		}
+	}
 	return "other"
 }
 
 func newCtl(progs [][]op) *ctl {
 	installHook()
 	c := &ctl{m: new(lazymap.LazySyncMap), ev: make(chan event, len(progs)+1), dead: make(chan struct{}),
-		computes: map[int]*int32{}, doneKey: map[int]bool{}}
+		computes: map[int]*int32{}, doneKey: map[int]bool{}, vals: map[int]interface{}{}}
 	for _, p := range progs {
 		for _, o := range p {
 			if c.computes[o.k] == nil {
 				c.computes[o.k] = new(int32)
 			}
+			if _, ok := c.vals[o.v]; !ok && o.kind != "load" {
+				c.vals[o.v] = goValue(o.v)
+				c.ids = append(c.ids, o.v)
+			}
 		}
 	}
+	sort.Ints(c.ids)
 	for i, p := range progs {
 		th := &thr{id: i, c: c, prog: p, release: make(chan struct{}), point: "spawn"}
 		for _, o := range p {
@@ -206,18 +306,18 @@ func (c *ctl) runThread(th *thr) {
 			case "los":
 				v := c.m.LoadOrStore(o.k, func() interface{} {
 					atomic.AddInt32(c.computes[o.k], 1)
-					return o.v
+					return c.vals[o.v]
 				})
-				r = renderVal(v)
+				r = c.renderVal(v)
 			case "load":
 				v, ok := c.m.Load(o.k)
 				if !ok {
 					r = "missing"
 				} else {
-					r = renderVal(v)
+					r = c.renderVal(v)
 				}
 			case "store":
-				c.m.Store(o.k, o.v)
+				c.m.Store(o.k, c.vals[o.v])
 				r = "unit"
 			}
 		})
@@ -367,14 +467,40 @@ func (c *ctl) rawCell(k int) string {
 	if !ok {
 		return "absent"
 	}
-	if r := renderVal(v); r == "placeholder" {
+	if r := c.renderVal(v); r == "placeholder" {
 		return "inflight"
 	} else {
 		return r
 	}
 }
 
-// observe renders the same canonical observable as the Lean driver's `observe`.
+// quiescent: every goroutine has finished its program.
+func (c *ctl) quiescent() bool {
+	for _, th := range c.thr {
+		if th.point != "end" {
+			return false
+		}
+	}
+	return !c.hung
+}
+
+// finalOf is what a Load of the key returns once the run is quiescent ("placeholder": the cell
+// still holds one, a Load would wait on it).
+func (c *ctl) finalOf(k int) string {
+	switch c.rawCell(k) {
+	case "inflight":
+		return "placeholder"
+	case "absent":
+		return "missing"
+	}
+	if v, ok := c.m.Load(k); ok {
+		return c.renderVal(v)
+	}
+	return "missing"
+}
+
+// observe renders the same canonical observable as the Lean driver's `observe`; once every
+// thread has finished it ends with the value a Load returns for every key.
 func (c *ctl) observe(keys []int) string {
 	var rets, pts, comp, cells, blocked []string
 	for _, th := range c.thr {
@@ -393,5 +519,13 @@ func (c *ctl) observe(keys []int) string {
 		cells = append(cells, fmt.Sprintf("%d:%s", k, c.rawCell(k)))
 	}
 	j := func(xs []string) string { return "(" + strings.Join(xs, " ") + ")" }
-	return fmt.Sprintf("rets=%s at=%s computes=%s cells=%s blocked=%s", j(rets), j(pts), j(comp), j(cells), j(blocked))
+	out := fmt.Sprintf("rets=%s at=%s computes=%s cells=%s blocked=%s", j(rets), j(pts), j(comp), j(cells), j(blocked))
+	if c.quiescent() {
+		var fin []string
+		for _, k := range keys {
+			fin = append(fin, fmt.Sprintf("%d:%s", k, c.finalOf(k)))
+		}
+		out += " final=" + j(fin)
+	}
+	return out
 }
